@@ -93,14 +93,13 @@ func checkLayerReads(c *core.Ctx, ruleVisible, rulePure string) {
 		"(*native/storage.CacheDB).delete":         true,
 		"(*core/store/overlaydb.MemDB).Delete":     true, // Delete = Put(key, nil)
 	}
-	cg := c.P.CG()
 	n := 0
 	for _, m := range []string{"MemDB.Put", "MemDB.Delete"} {
 		fn := c.Fn(pkOverlayDB, m)
 		if fn == nil {
 			continue
 		}
-		for _, caller := range cg.Callers(fn) {
+		for _, caller := range c.P.EffectiveCallers(fn, func(y *ssa.Function) bool { return allowed[ir.FuncName(y)] }) {
 			n++
 			nm := ir.FuncName(caller)
 			c.Decide(allowed[nm], rulePure, caller, "MemDB."+fn.Name()+" is called only from the layer mutators (a read records nothing)", c.P.Rel(caller.Pos()),
